@@ -273,6 +273,11 @@ func checkPendingRangeAppendOnly(c *an.Ctx, id string) {
 						if isHeaders(x.Call.Args[0]) {
 							touches = true
 							nAppend++
+							// appending to a RE-SLICE of the array that ends before the range does (headers[:0], headers[:k])
+							// writes over what is there: only the whole range may be appended to
+							if sl, isSl := x.Call.Args[0].(*ssa.Slice); isSl && sl.High != nil {
+								c.Fail(id, "pending-range-array-append-only", rule, fn, x, "append to a shortened re-slice of the range's array", nil)
+							}
 						}
 					}
 					return
